@@ -105,6 +105,59 @@ def norm_sigma(e, table):
     return rewrite(e)
 
 
+def lin_expand(e):
+    """Distribute the linear uninterpreted functions over sums and pull numeric
+    factors out: SIG, SIGA (first argument), CROSS (bilinear, antisymmetric:
+    arguments are put in canonical order with the sign)."""
+    if e is None:
+        return None
+
+    def split(t):
+        c, rest = sp.Integer(1), sp.Integer(1)
+        for f in (t.args if t.func == sp.Mul else (t,)):
+            if f.is_number:
+                c = c * f
+            else:
+                rest = rest * f
+        return c, rest
+
+    def rw(x):
+        if not x.args:
+            return x
+        args = [rw(a) for a in x.args]
+        if x.func in (SIG, SIGA):
+            inner = sp.expand(args[0])
+            out = 0
+            for t in (inner.args if inner.func == sp.Add else (inner,)):
+                c, rest = split(t)
+                if rest == 1 and x.func == SIG:
+                    out = out + c * x.func(sp.Integer(1), *args[1:])
+                elif t == 0:
+                    continue
+                else:
+                    out = out + c * x.func(rest, *args[1:])
+            return out
+        if x.func == CROSS:
+            a, b = sp.expand(args[0]), sp.expand(args[1])
+            out = 0
+            for ta in (a.args if a.func == sp.Add else (a,)):
+                for tb in (b.args if b.func == sp.Add else (b,)):
+                    if ta == 0 or tb == 0:
+                        continue
+                    ca, ra = split(ta)
+                    cb, rb = split(tb)
+                    if ra == rb:
+                        continue
+                    if sp.default_sort_key(ra) > sp.default_sort_key(rb):
+                        out = out - ca * cb * CROSS(rb, ra)
+                    else:
+                        out = out + ca * cb * CROSS(ra, rb)
+            return out
+        return x.func(*args)
+
+    return sp.expand(rw(sp.expand(e)))
+
+
 def sdiff(e, s, table, unsig=False):
     """Derivative with SIG as a linear functional: d SIG(e)/ds = SIG(de/ds) for a
     scalar s; for an array symbol (unsig=True) the Jacobian row of SIG(e) with
@@ -621,6 +674,13 @@ class SymX(Domain):
                 return CROSS(ads[0], ads[1])
             if short in ("max", "amax") and ads and ads[0] is not None and len(args) == 1 and not node.keywords:
                 return MAXF(ads[0]) if has_array(ads[0], self.table) else ads[0]
+            if short == "outer" and len(ads) == 2 and None not in ads and not any(isinstance(a_, sp.MatrixBase) for a_ in ads):
+                # outer product with a vector of ones: broadcasting copy along a new axis
+                if ads[1] == 1:
+                    return ads[0]
+                if ads[0] == 1:
+                    return ads[1]
+                return None
             if short in ("eye", "identity"):
                 return EYE
             if short in ("ones", "ones_like"):
